@@ -12,7 +12,9 @@ const (
 	maxDecodeNodes = 10000
 )
 
-func decodeFromBuffer(buf *bytes.Buffer, depth int, nodeCount *int) (nodes *TlvNodes, err error) {
+// indefinite: decoding the contents of an indefinite-length value, which must be
+// (and may only be) terminated by the end-of-contents octets (0x0000)
+func decodeFromBuffer(buf *bytes.Buffer, depth int, nodeCount *int, indefinite bool) (nodes *TlvNodes, err error) {
 	if depth > maxDecodeDepth {
 		return nil, fmt.Errorf("[decode] exceeded maximum nesting depth (%d)", maxDecodeDepth)
 	}
@@ -38,7 +40,7 @@ func decodeFromBuffer(buf *bytes.Buffer, depth int, nodeCount *int) (nodes *TlvN
 			var children *TlvNodes
 
 			if length == -1 {
-				children, err = decodeFromBuffer(buf, depth+1, nodeCount)
+				children, err = decodeFromBuffer(buf, depth+1, nodeCount, true)
 				if err != nil {
 					return nil, fmt.Errorf("[decode] error: %w", err)
 				}
@@ -48,7 +50,7 @@ func decodeFromBuffer(buf *bytes.Buffer, depth int, nodeCount *int) (nodes *TlvN
 					return nil, fmt.Errorf("[decode] ByteBuffer error: %w", err)
 				}
 				childBuf := bytes.NewBuffer(childData)
-				children, err = decodeFromBuffer(childBuf, depth+1, nodeCount)
+				children, err = decodeFromBuffer(childBuf, depth+1, nodeCount, false)
 				if err != nil {
 					return nil, fmt.Errorf("[decode] error: %w", err)
 				}
@@ -72,6 +74,10 @@ func decodeFromBuffer(buf *bytes.Buffer, depth int, nodeCount *int) (nodes *TlvN
 		}
 	}
 
+	if indefinite {
+		return nil, fmt.Errorf("[decode] indefinite-length value is not terminated by end-of-contents")
+	}
+
 	return nodes, nil
 }
 
@@ -79,7 +85,7 @@ func Decode(data []byte) (nodes *TlvNodes, err error) {
 	nodeCount := 0
 	buf := bytes.NewBuffer(data)
 
-	nodes, err = decodeFromBuffer(buf, 0, &nodeCount)
+	nodes, err = decodeFromBuffer(buf, 0, &nodeCount, false)
 	if err != nil {
 		return nil, err
 	}
